@@ -2,11 +2,11 @@
 # tools/confirm_seed.sh <PROP>  -- independently confirm a seeded change produced in /tmp/seed_<PROP>:
 #   builds the repository test suite WITH the patch in the scratch worktree and runs it, checks that the
 #   demonstration fails with the patch and passes without; copies patch/demo/meta to /verif/seeded/<PROP>/
-P=$1; W=/tmp/seed_$P; OUT=/verif/seeded/$P
+P=$1; W=${2:-/tmp/seed_$P}; OUT=${3:-/verif/seeded/$P}
 mkdir -p $OUT; cp $W/seed/patch.diff $W/seed/demo.cpp $W/seed/meta.json $OUT/ 2>/dev/null
 L=$OUT/confirm.log; : > $L
 cd $W || exit 2
-git stash -q 2>/dev/null; git checkout -q -- . 2>/dev/null
+git checkout -q -- amgcl 2>/dev/null
 echo "== unchanged tree: demo" >> $L
 g++ -std=c++11 -O1 -fopenmp -I $W $W/seed/demo.cpp -o /tmp/demo_$P 2>>$L && (OMP_NUM_THREADS=4 timeout 900 /tmp/demo_$P | tail -3; echo "exit=${PIPESTATUS[0]}") >> $L 2>&1
 echo "== apply patch" >> $L
